@@ -956,7 +956,7 @@ impl Prop for C08 {
         "C08"
     }
     fn rule(&self) -> &'static str {
-        "generated cases: 1-3 range lists and 1-3 location lists of 0-12 entries over every DW_RLE_*/DW_LLE_* kind, the legacy pair format with base-address selection entries, and GNU split-DWARF LLE entries in .debug_loc (2-byte expression length, 4-byte startx_length), boundary addresses (0, 1, max-2, max-1, max, wrap-around sums), .debug_addr tables behind a non-zero addr_base with in- and out-of-range indices, v5 headers with offset tables behind non-zero bases, x {byte order, address size 1/2/4/8, 32/64-bit, versions 2-5}. Oracle: list model (running base, indexed addresses, start+length modulo the address size, default_location = [0,u64::MAX), documented tombstone/empty filters). Checked: raw iteration = encoded entries one for one, cooked iteration = model, get_offset = base + table[index], and through a generated unit: Unit bases, attr_ranges_offset, die_ranges/unit_ranges for list-backed and low_pc/high_pc (address | data1/2 | udata) entries, attr_locations via sec_offset / loclistx / legacy data4/data8, ranges_offset_from_raw for Main vs Dwo; separate mode: arbitrary bytes -> every yielded range non-empty and below the tombstones, iterator finishes within len+4 steps. Non-trivial = >=3 entries, >=1 base-address change, >=1 entry the cooked iterator must skip; distinct by choice string."
+        "generated cases: 1-3 range lists and 1-3 location lists of 0-12 entries over every DW_RLE_*/DW_LLE_* kind, the legacy pair format with base-address selection entries, and GNU split-DWARF LLE entries in .debug_loc (2-byte expression length, 4-byte startx_length), boundary addresses (0, 1, max-2, max-1, max, wrap-around sums), .debug_addr tables behind a non-zero addr_base with in- and out-of-range indices, v5 headers with offset tables behind non-zero bases, x {byte order, address size 1/2/4/8, 32/64-bit, versions 2-5}. Oracle: list model (running base, indexed addresses, start+length modulo the address size, default_location = [0,u64::MAX), documented tombstone/empty filters). Checked: raw iteration = encoded entries one for one, cooked iteration = model, get_offset = base + table[index], and through a generated unit: Unit bases, attr_ranges_offset, die_ranges/unit_ranges for list-backed and low_pc/high_pc (address | data1/2 | udata) entries, attr_locations via sec_offset / loclistx / legacy data4/data8, ranges_offset_from_raw for Main vs Dwo; separate mode: arbitrary bytes -> every yielded range non-empty and below the tombstones, iterator finishes within len+4 steps. Non-trivial = >=3 entries, >=1 base-address change, >=1 entry the cooked iterator must skip; distinct by choice string. Later additions: Unit::copy_relocated_attributes; every question also through Dwarf::borrow and through UnitRef; raw iterators stay at the end; the std Iterator views of the four list iterators."
     }
     fn assumptions(&self) -> Vec<&'static str> {
         vec![
